@@ -158,6 +158,7 @@ type callRec struct {
 	Target   string
 	Token    string
 	Size     int // effective page size of a list call
+	Page     int // index of the served page in the listing's chain
 	N        int // items returned by a list call
 	Next     string
 	Err      string
@@ -384,7 +385,7 @@ func (m *kmsModel) servePage(li int, parent string, total int, reqSize int32, to
 	if i+1 < len(ch.pages) {
 		next = tokenFor(parent, i+1)
 	}
-	m.log[li].Token, m.log[li].Size, m.log[li].N, m.log[li].Next = token, size, p.n, next
+	m.log[li].Token, m.log[li].Size, m.log[li].N, m.log[li].Next, m.log[li].Page = token, size, p.n, next, i
 	return p, next, nil
 }
 
@@ -604,7 +605,7 @@ func (m *kmsModel) loopCause() (string, bool) {
 }
 
 // abandonedShort: the last page the client fetched of some listing was shorter than the page size
-// and carried a token that was never followed.
+// and carried a token that was never followed, with items behind it.
 func (m *kmsModel) abandonedShort() (string, callRec, bool) {
 	last := map[string]callRec{}
 	var order []string
@@ -618,8 +619,17 @@ func (m *kmsModel) abandonedShort() (string, callRec, bool) {
 		last[c.Target] = c
 	}
 	for _, p := range order {
-		if c := last[p]; c.Next != "" && c.N < c.Size {
-			return p, c, true
+		c := last[p]
+		if c.Next == "" || c.N >= c.Size {
+			continue
+		}
+		// only a cause when items really sit behind the token (a trailing empty page hides nothing)
+		if ch := m.chains[p]; ch != nil {
+			for j := c.Page + 1; j < len(ch.pages); j++ {
+				if ch.pages[j].n > 0 {
+					return p, c, true
+				}
+			}
 		}
 	}
 	return "", callRec{}, false
